@@ -40,6 +40,10 @@ def rule_matches(rule, comps, is_dir):
     """comps: path of the entry relative to the rule file's directory"""
     r = rule[1:] if rule.startswith("!") else rule
     base = comps[-1]
+    if "/" in r.strip("/"):
+        # a path with an inner slash is anchored to the rule file's directory
+        want = r.strip("/").split("/")
+        return comps == want and (is_dir or not r.endswith("/"))
     if r.endswith("/"):
         return is_dir and base == r[:-1]
     if r.startswith("/"):
@@ -248,6 +252,22 @@ def gen_case(rng):
                 rules[src] = [gen_rule() for _ in range(rng.range(1, 3))]
         else:
             rules[src] = [gen_rule(allow_anchor=False) for _ in range(rng.range(1, 3))]
+    # anchored paths (inner slash): relative to the directory of the rule file,
+    # whatever the search roots are
+    for src in used:
+        if src in SRCFILE:
+            for d in list(rules.get(src, {})):
+                if rng.chance(1, 2):
+                    pre = d + "/" if d else ""
+                    cands = sorted(p[len(pre):] for p in tree if p.startswith(pre) and p[len(pre):].count("/") >= 1
+                                   and "/.git" not in p)
+                    if cands:
+                        r = rng.pick(cands)
+                        if rng.chance(1, 2):
+                            r = "/" + r
+                        if rng.chance(1, 4):
+                            r = "!" + r
+                        rules[src][d].append(r)
     # plant conflicts on a shared target
     if len(used) >= 2 and rng.chance(2, 3):
         tgt = rng.pick(names) if rng.chance(2, 3) else "*" + rng.pick(EXTS)
